@@ -5,7 +5,7 @@ import re
 
 from .. import AnalysisError
 from ..cfg import ALL_KINDS, NORMAL_KINDS, iter_own
-from ..lib import bound_from, inlined, attr_stores, dominated_by, guard_forms, key_of, norm, render, type_is
+from ..lib import bound_from, inlined, inlined_expr, attr_stores, dominated_by, guard_forms, key_of, norm, render, type_is
 from ..report import describe, rule
 from .c01 import _must_pass, _try_append_test
 
@@ -315,7 +315,7 @@ def c07_5(ctx, r):
     # the name->group lookup that feeds the HPC manager comes from the same (persisted, resubmit-updatable) source as the groups iterated by run()
     hsi = ctx.fn(f"{HS}.__init__", "C07.5")
     stg = [ctx.stmt_of(hsi, n) for f2, n, attr, t, kind in attr_stores(ctx, {"_submission_groups"}) if f2 is hsi]
-    okl = len(stg) == 1 and render(ctx, hsi, stg[0].value) == "call:submission_group.make_submission_group_lookup(<ClusterConfig.submission_groups>)@"
+    okl = len(stg) == 1 and render(ctx, hsi, inlined_expr(ctx, hsi, stg[0].value)).replace(" ", "") in ("call:submission_group.make_submission_group_lookup(<ClusterConfig.submission_groups>)@", "make_submission_group_lookup(<ClusterConfig.submission_groups>)")
     r.check(okl, "HpcSubmitter's group lookup is built from the cluster config's groups (the ones run() iterates)", key_of(hsi, "group lookup source"), hsi.loc(),
             f"the group lookup given to HpcManager is built from `{ctx.src(stg[0].value) if stg else None}`, not from cluster.config.submission_groups: after `resubmit-jobs -s <groups file>` batches are submitted with the "
             "old HPC parameters of config.json while batch construction uses the new ones", "submitted with that group's HPC parameters and run options")
@@ -325,7 +325,7 @@ def c07_5(ctx, r):
     oki = False
     for lp in [x for x in iter_own(hi.node) if isinstance(x, ast.For) and isinstance(x.target, ast.Tuple) and len(x.target.elts) == 2 and ctx.src(x.iter).endswith(".items()")]:
         kn, gn = ctx.src(lp.target.elts[0]), ctx.src(lp.target.elts[1])
-        oki = oki or any(isinstance(n, ast.Assign) and ctx.src(n.targets[0]) == f"self._intfs[{kn}]" and f"{gn}.submitter_params.hpc_config" in ctx.src(n.value) for n in ast.walk(lp))
+        oki = oki or any(isinstance(n, ast.Assign) and ctx.src(n.targets[0]) == f"self._intfs[{kn}]" and f"{gn}.submitter_params.hpc_config" in ctx.src(inlined_expr(ctx, hi, n.value)) for n in ast.walk(lp))
     r.check(oki, "each group's interface is built from that group's hpc_config", key_of(hi, "interfaces"), hi.loc(), "HpcManager builds interfaces from something other than each group's hpc_config")
 
 
